@@ -6,7 +6,7 @@ from crosshair.core import NoTracing, realize
 
 from stix2.canonicalization import Canonicalize as C
 
-from engine.hlib import V, pick
+from engine.hlib import Native, V, pick
 
 KEYSETS = [("a", "b", "c"), ("b", "a", "aa"), ("\U0001F600", "דּ", "a"), ("€", "$", "\u0080"), ("k\"q", "k\\", "k\n")]
 PERMS = [(0, 1, 2), (0, 2, 1), (1, 0, 2), (1, 2, 0), (2, 0, 1), (2, 1, 0)]
@@ -109,7 +109,7 @@ def struct(k1: int, b1: bool, k2: int, b2: bool, k3: int, b3: bool, perm: int, s
     b1 = pickb(b1) if k1 == 1 else False
     b2 = pickb(b2) if k2 == 1 else False
     b3 = pickb(b3) if k3 == 1 else False
-    with NoTracing():
+    with Native():
         ok = run_case(shape, ks, perm, k1, b1, k2, b2, k3, b3)
     V.reached()
     return ok
